@@ -181,7 +181,14 @@ func H_C05_valid() {
 	case 0, 1:
 		var m Map
 		if pos == 0 {
-			m = Map{"r": map[string]interface{}{"k": v}}
+			switch vChoose(3) {
+			case 0:
+				m = Map{"r": map[string]interface{}{"k": v}}
+			case 1:
+				m = Map{"r": []interface{}{v, "x"}} // one-key map holding a list with a scalar member
+			default:
+				m = Map{"r": v, "s": []interface{}{v}}
+			}
 		} else {
 			m = Map{"r": map[string]interface{}{"-a": v, "k": "x"}}
 		}
